@@ -843,6 +843,32 @@ impl Interp {
         }
         // C05: committed entries
         let committed = self.committed.lock().unwrap().clone();
+        // C33: a node's purge boundary never passes what is committed nor the snapshot the node holds
+        for (id, n) in &self.w.nodes {
+            let first = n.raft_log.first_entry_id();
+            let boundary = if first > 0 { first - 1 } else { n.raft_log.last_log_id().map(|l| l.index).unwrap_or(0) };
+            if boundary == 0 {
+                continue;
+            }
+            self.res.labels.insert("log_purged".into());
+            let snap = n.sm.snapshot_metadata().and_then(|m| m.last_included).map(|l| l.index).unwrap_or(0);
+            if boundary > committed.max_index {
+                self.res.checkpoint_violations.push((
+                    "C33".into(),
+                    "C33:purged-beyond-commit".into(),
+                    format!("t={}ms node {id} purged its log up to {boundary} but the highest committed index is {}", self.w.now_ms(), committed.max_index),
+                ));
+                return;
+            }
+            if boundary > snap {
+                self.res.checkpoint_violations.push((
+                    "C33".into(),
+                    "C33:purged-beyond-own-snapshot".into(),
+                    format!("t={}ms node {id} purged its log up to {boundary} but the snapshot it holds covers only up to {snap}", self.w.now_ms()),
+                ));
+                return;
+            }
+        }
         for c in &committed.conflicts {
             self.res.checkpoint_violations.push(("C05".into(), "C05:two-different-entries-committed-at-one-index".into(), c.clone()));
         }
